@@ -19,7 +19,7 @@ from harness.common import (canon, dec_res, enc_val, ensure_impl_on_path, known_
                             run_impl, same)
 
 GEN_MODULES = ['excelutil', 'arrayfit', 'lookup']
-EXTRA_TARGETS = ['Refuted/C13_scalar_error.vo']
+EXTRA_TARGETS = ['Refuted/C13_scalar_error.vo', 'Refuted/C13_adjacent_ranges.vo']
 EXPLANATION = (
     "fit_to_range is translated from excelutil.py on every run (Gen/arrayfit.v) and proved equal to the "
     "list-level specification fit_spec for every non-empty rectangular result and every target >= 1x1; "
@@ -171,6 +171,40 @@ def _scalar_error_short_circuit(case):
     def arr(v):
         return isinstance(v, (tuple, list))
     return (arr(l) and err(r)) or (err(l) and arr(r))
+
+
+ADJACENT_ID = 'C13-adjacent-array-formulas-merged'
+
+
+@known_predicate(ADJACENT_ID)
+def _adjacent_merged(case):
+    """Inert until registered in known_findings.json (the oracle stream that produces it runs only then).
+    One cause: _OpxRange.__new__ (excelwrapper.py 77-87) gives a range the array formula of its top left
+    cell whenever that cell is member (1, 1) and every cell of the range STARTS WITH the same
+    '=CSE_INDEX(<text>' — it does not look at the members' own sizes.  A range that starts at one array
+    formula's top left and runs on into an adjacent array formula whose text starts with the same text
+    (the same formula entered twice, or =A1:B1*2 next to =A1:B1*20) is evaluated as ONE array formula
+    over the larger range: =A1:B1*2 over F10:G10 and over H10:I10 -> evaluate(F10:I10) =
+    (2, 4, #N/A, #N/A) and SUM(F10:I10) = #N/A, while H10, I10 show 2, 4.
+    Model: Model/CseCells.v range_formula; Refuted/C13_adjacent_ranges.v."""
+    return case.get('call') == 'range-over-array-formulas'
+
+
+SUBRANGE_ID = 'C13-inmemory-subrange-typeerror'
+
+
+@known_predicate(SUBRANGE_ID)
+def _inmemory_subrange(case):
+    """Inert until registered in known_findings.json (the oracle stream that produces it runs only then).
+    With a workbook handed over in memory (ExcelCompiler(excel=wb) -> ExcelOpxWrapperNoData) a range whose
+    top left cell is a member of an array formula but that is not taken for the formula's own range (e.g.
+    the second column or the second row of the reference range: =SUM(G10:G11) next to an array formula
+    over F10:G11; or a range from its top left running past it into other cells: F10:G13) cannot be
+    evaluated: _OpxRange.__new__ leaves formula = None and
+    ExcelOpxWrapperNoData.OpxRange.__new__ (excelwrapper.py 376-381) zips over it ->
+    TypeError "'NoneType' object is not iterable".  The same workbook loaded from a file evaluates it
+    cell by cell (12).  Model: range_formula = None -> cell by cell (C13_range_formula_inner)."""
+    return case.get('call') == 'range-inside-array-formula'
 
 
 @known_predicate('C13-empty-marker-text-shown-as-zero')
@@ -395,6 +429,9 @@ def run(ctx):
     # ================================================= 4. end to end: array formulas in a workbook
     end_to_end(ctx, fixup, FUNCS)
 
+    # ================================================= 5. which range is an array formula's range
+    range_formulas(ctx, fixup)
+
 
 def cell_value(ctx):
     """Values a worksheet cell can hold (text that openpyxl would read as a formula is avoided)."""
@@ -577,6 +614,154 @@ def end_to_end(ctx, fixup, FUNCS):
                 m = ('ok', sq_model(m[1]))
             if not skip_model(m) and not same(m, got):
                 ctx.divergence(case, got, m, 'fit_to_range(op_fixup a o b) in the models = evaluate(target range)')
+
+
+def sheet_cells(ws, r0, c0, h, w):
+    """The cells of a range as Model/CseCells.v sheet_cell: [] or [text, i, j, h, w] (wire form)."""
+    rows = []
+    for row in range(r0, r0 + h):
+        cells = []
+        for cl in range(c0, c0 + w):
+            text = ws.cell(row=row, column=cl).value
+            if isinstance(text, str) and text.startswith('=CSE_INDEX(') and text.endswith(')'):
+                f, i, j, hh, ww = text[len('=CSE_INDEX('):-1].rsplit(',', 4)
+                cells.append([enc_val(f), int(i), int(j), int(hh), int(ww)])
+            else:
+                cells.append([])
+        rows.append(cells)
+    return rows
+
+
+def impl_range_formula(comp, ref):
+    # _OpxRange.__new__ itself: the in-memory wrapper's post-processing (ExcelOpxWrapperNoData.OpxRange)
+    # raises TypeError on a range without a formula of its own — see SUBRANGE_ID
+    from pycel.excelwrapper import ExcelOpxWrapper
+    f = ExcelOpxWrapper.get_range(comp.excel, f'Sheet!{ref}').formula
+    if isinstance(f, str):
+        assert f.startswith('={') and f.endswith('}'), f
+        return (True, f[2:-1])
+    return (False,)
+
+
+def range_formulas(ctx, fixup):
+    """Two array formulas entered over adjacent reference ranges (same text, a text that extends the first,
+    another text), and the ranges of the sheet around them: which of them _OpxRange.__new__ takes for an
+    array formula's own range (model: range_formula), and what such a range evaluates to."""
+    from openpyxl import Workbook
+    from openpyxl.worksheet.formula import ArrayFormula
+    from pycel import ExcelCompiler
+
+    # the two oracle streams below produce violations on the unrepaired implementation; they run once the
+    # finding is registered in known_findings.json (or with C13_GATED_ORACLES=1, to see them fail)
+    import os
+    force = os.environ.get('C13_GATED_ORACLES') == '1'
+    oracle_on = force or any(f.get('id') == ADJACENT_ID for f in ctx.findings)
+    subrange_on = force or any(f.get('id') == SUBRANGE_ID for f in ctx.findings)
+    rf_calls, rv_calls = [], []
+    for rep in range(ctx.n(40, 200)):
+        wb = Workbook()
+        ws = wb.active
+        sa = (ctx.rng.randrange(1, 4), ctx.rng.randrange(1, 4))
+        vals = tuple(tuple(ctx.rng.choice([0, 1, 2, 3, 7, -5, 0.5, 1.5, 12]) for _ in range(sa[1]))
+                     for _ in range(sa[0]))
+        for i, row in enumerate(vals):
+            for j, v in enumerate(row):
+                ws.cell(row=1 + i, column=1 + j, value=v)
+        src = f'A1:{col(sa[1])}{sa[0]}' if sa != (1, 1) else 'A1:A1'
+        k = ctx.rng.choice([2, 3, 5])
+        f1 = f'{src}*{k}'
+        variant = ctx.rng.choice(['same', 'same', 'extends', 'other'])
+        f2 = {'same': f1, 'extends': f1 + '0', 'other': f'{src}+{k}'}[variant]
+        h1, w1 = ctx.rng.randrange(1, 4), ctx.rng.randrange(1, 4)
+        if (h1, w1) == (1, 1):
+            w1 = 2
+        horizontal = ctx.rng.random() < 0.5
+        if horizontal:
+            h2, w2 = h1, ctx.rng.randrange(1, 4)
+            r2, c2 = 10, 6 + w1
+        else:
+            h2, w2 = ctx.rng.randrange(1, 4), w1
+            r2, c2 = 10 + h1, 6
+        if (h2, w2) == (1, 1):
+            h2, w2 = (1, 2) if horizontal else (2, 1)
+            if not horizontal and w1 != 1:
+                h2, w2 = 2, w1
+            if horizontal and h1 != 1:
+                h2, w2 = h1, 2
+        ref1 = f'{col(6)}10:{col(6 + w1 - 1)}{10 + h1 - 1}'
+        ref2 = f'{col(c2)}{r2}:{col(c2 + w2 - 1)}{r2 + h2 - 1}'
+        ws.cell(row=10, column=6, value=ArrayFormula(ref1, '=' + f1))
+        ws.cell(row=r2, column=c2, value=ArrayFormula(ref2, '=' + f2))
+        try:
+            comp = ExcelCompiler(excel=wb)
+        except Exception as exc:      # noqa: BLE001
+            ctx.violation(dict(call='array-formula', args=[f1, f2, ref1, ref2]),
+                          f"workbook with array formulas does not compile: {type(exc).__name__}")
+            continue
+        sheet = comp.excel.workbook['Sheet']
+        a = vals if sa != (1, 1) else vals        # A1:A1 is read as a range as well
+        try:
+            res1 = fixup(a, 'Mult', k)
+            enc_val(res1)
+        except Exception:      # noqa: BLE001
+            res1 = None
+        # the ranges around: both reference ranges, the range spanning both, ranges from the first top left
+        # of random extent, ranges starting inside
+        H, W = (h1, w1 + w2) if horizontal else (h1 + h2, w1)
+        spans = [(10, 6, h1, w1), (r2, c2, h2, w2), (10, 6, H, W)]
+        for _ in range(4):
+            spans.append((10, 6, ctx.rng.randrange(1, H + 2), ctx.rng.randrange(1, W + 2)))
+            spans.append((10 + ctx.rng.randrange(0, 2), 6 + ctx.rng.randrange(0, 2),
+                          ctx.rng.randrange(1, H + 1), ctx.rng.randrange(1, W + 1)))
+        for (r0, c0, h, w) in spans:
+            if (h, w) == (1, 1):
+                continue
+            ref = f'{col(c0)}{r0}:{col(c0 + w - 1)}{r0 + h - 1}'
+            case = dict(call='range-formula', args=[f1, ref1, f2, ref2], range=ref)
+            im = run_impl(impl_range_formula, comp, ref)
+            rf_calls.append((case, sheet_cells(sheet, r0, c0, h, w), im))
+            if subrange_on and im == ('ok', (False,)):
+                cells = tuple(tuple(run_impl(comp.evaluate, f'Sheet!{col(c0 + j)}{r0 + i}')
+                                    for j in range(w)) for i in range(h))
+                got = run_impl(comp.evaluate, f'Sheet!{ref}')
+                if all(x[0] == 'ok' for row in cells for x in row):
+                    want = ('ok', squeeze(tuple(tuple(x[1] for x in row) for row in cells)))
+                    if got != want:
+                        ctx.violation(dict(call='range-inside-array-formula', args=[f1, ref1, f2, ref2],
+                                           range=ref),
+                                      "a range inside an array formula's range does not show its cells' values",
+                                      impl=got, expected=want[1])
+            if im == ('ok', (True, f1)) and res1 is not None:
+                got = run_impl(comp.evaluate, f'Sheet!{ref}')
+                rv_calls.append((dict(case, result=canon(res1)), res1, h, w, got))
+                if oracle_on:
+                    cells = tuple(tuple(run_impl(comp.evaluate, f'Sheet!{col(c0 + j)}{r0 + i}')
+                                        for j in range(w)) for i in range(h))
+                    if all(x[0] == 'ok' for row in cells for x in row):
+                        want = ('ok', squeeze(tuple(tuple(x[1] for x in row) for row in cells)))
+                        if got != want:
+                            ctx.violation(dict(call='range-over-array-formulas', args=[f1, ref1, f2, ref2],
+                                               range=ref),
+                                          "a range over array formulas does not show its cells' own values",
+                                          impl=got, expected=want[1])
+    if ctx.model and rf_calls:
+        ms = [dec_res(x) for x in ctx.model.batch([('range_formula', [cells]) for _, cells, _ in rf_calls])]
+        for (case, cells, im), m in zip(rf_calls, ms):
+            ctx.count(('range-formula', repr(case)), kind='range-formula:' + ('own' if im[1][0] else 'none'),
+                      sample=dict(case, impl=im))
+            if not skip_model(m) and not same(m, im):
+                ctx.divergence(case, im, m, 'Model/CseCells.v range_formula = the formula _OpxRange.__new__ '
+                                            'gives the range')
+    if ctx.model and rv_calls:
+        ms = [dec_res(x) for x in ctx.model.batch(
+            [('range_value', [h, w, enc_val(res)]) for _, res, h, w, _ in rv_calls])]
+        for (case, res, h, w, got), m in zip(rv_calls, ms):
+            ctx.count(('range-value', repr(case)), kind='range-formula:value', sample=dict(case, impl=got))
+            if m[0] == 'ok':
+                m = ('ok', sq_model(m[1]))
+            if not skip_model(m) and not same(m, got):
+                ctx.divergence(case, got, m, 'Model/CseCells.v cse_range_value (h, w) result = evaluate(range) '
+                                             'for a range taken for an array formula\'s range')
 
 
 def sheet_side(comp, r0, c0, h, w):
